@@ -8,6 +8,7 @@ world's handler.  Execution draws nothing from a PRNG and reads no real clock.
 """
 import hashlib
 import heapq
+import datetime
 import json
 import types
 from collections import Counter
@@ -206,6 +207,9 @@ _EXC = {
     'ReadTimeout': _requests.exceptions.ReadTimeout,
     'ConnectTimeout': _requests.exceptions.ConnectTimeout,
     'ChunkedEncodingError': _requests.exceptions.ChunkedEncodingError,
+    # the call is aborted from outside while it waits for the node (user interrupt, task cancellation): not `Exception`s
+    'KeyboardInterrupt': KeyboardInterrupt,
+    'CancelledError': __import__('asyncio').CancelledError,
 }
 
 
@@ -263,6 +267,7 @@ class Transport:
         self.attempts += 1
         if self.attempts > self.max_requests:
             raise SimCapExceeded(f'request cap {self.max_requests}')
+        t_send = sim.now_ms
         req = {
             'i': self.attempts,
             'method': prepared.method,
@@ -330,7 +335,7 @@ class Transport:
                 if directive.get('how', 'exc') == 'exc':
                     reply = Reply.error('ConnectionError', 'injected: connection refused')
                 else:
-                    reply = Reply.js([{'kind': 'permanent', 'id': 'node.injected.rejected'}], status=500)
+                    reply = Reply.js([{'kind': directive.get('kind', 'permanent'), 'id': directive.get('err_id', 'node.injected.rejected')}], status=500)
             elif f == 'ack_lost':
                 delivered = self._deliver(req)
                 sim.stats['fault:ack_lost'] += 1
@@ -352,7 +357,10 @@ class Transport:
         rec['status'] = reply.status
         if reply.note:
             rec['note'] = reply.note
-        return make_response(reply.status, reply.ctype, reply.body, url=full, headers=reply.headers)
+        res = make_response(reply.status, reply.ctype, reply.body, url=full, headers=reply.headers)
+        # like requests: the time between sending the request and the arrival of the response (virtual)
+        res.elapsed = datetime.timedelta(milliseconds=sim.now_ms - t_send)
+        return res
 
 
 class Seams:
